@@ -224,3 +224,4 @@ W int w_pqs0(const unsigned char* in, unsigned n, unsigned char* out, unsigned* 
   }
   return int(c);
 }
+W void w_var_setbool(VariantData* v, unsigned b) { v->setBoolean(b != 0); }
